@@ -6,14 +6,16 @@ FW = "fpgroups::free_words::FreeWord"
 SAN = {"fpgroups::free_words::normalized"}
 
 EXPLANATION = (
-    "Decided: (a) T1 write-through: every construction of FreeWord, every assignment to its field `w` and every mutable borrow of it, "
-    "in every body of the crate, takes the stored vector from free_words::normalized or copies the `w` of another FreeWord; with `w` "
-    "private (field-visibility fact; thorough tier: compile-fail witness E0616/E0451) these are all writers, so every FreeWord value is "
-    "freely reduced whatever operation produced it (in-place product, inverse, power, commutator, rotation, From). (b) the shape of "
-    "`normalized` itself: the returned buffer is only changed by push/pop, a push is dominated by 'top does not cancel' and 'letter != 0', "
-    "the pop by 'top cancels', and the cancel test compares with the negation. (c) partial_cmp delegates to cmp; Eq/PartialEq/Hash are derived. "
-    "NOT decided: that cmp is a strict total order, that the relator representative is the minimum over all rotations/inverses, "
-    "exactness of the permutation set (value-level).")
+    "Decided: (a) T1 write-through: every construction of FreeWord, every assignment to its field `w` and every mutable borrow of it, in every "
+    "body of the crate, takes the stored vector from free_words::normalized or copies the `w` of another FreeWord; with `w` private "
+    "(field-visibility fact; thorough tier: compile-fail witness E0616/E0451) these are all writers, so every FreeWord value is freely reduced "
+    "whatever operation produced it (in-place product, inverse, power, commutator, rotation, From). (b) the shape of `normalized` itself: the "
+    "returned buffer is only changed by push/pop, a push is dominated by 'top does not cancel' and 'letter != 0', the pop by 'top cancels', and "
+    "the cancel test compares with the negation. (c) partial_cmp delegates to cmp; Eq/PartialEq/Hash are derived. Also decided: cmp is "
+    "lexicographic over positions 0..min(len, len) with the lengths as tie-break, and its letter comparison is a strict total order (evaluated "
+    "through the path conditions of one iteration on all pairs of the letters -3..3, all triples for transitivity), so cmp is a strict total "
+    "order compatible with ==. NOT decided: that the relator representative is the minimum over all rotations/inverses (only that all of them "
+    "are compared), exactness of the permutation set (value-level).")
 TRUSTED = ["rustc MIR lowering (nightly 1.97) of the dev profile", "std Vec::push/pop/last semantics",
            "A5 one-pass stack reduction is complete free reduction (argued by reading; its guard shape is checked, not its arithmetic)"]
 ASSUMPTIONS = ["no unsafe code forges a FreeWord (checked: crate has no transmute into FreeWord; see sweep)"]
